@@ -252,6 +252,20 @@ where
         }
         self.storage.batch_set(updates).await?;
 
+        // Compute the new root hash while the transaction is still open (the nodes of the new
+        // epoch are served from the transaction log): once the transaction has been committed,
+        // the publish has taken effect and must not report a failure anymore
+        let root_hash = match current_azks
+            .get_root_hash_safe::<TC, _>(&self.storage, next_epoch)
+            .await
+        {
+            Ok(root_hash) => root_hash,
+            Err(err) => {
+                let _ = self.storage.rollback_transaction();
+                return Err(err);
+            }
+        };
+
         // Commit the transaction
         info!("Committing transaction");
         match self.storage.commit_transaction().await {
@@ -264,10 +278,6 @@ where
                 return Err(AkdError::Storage(err));
             }
         };
-
-        let root_hash = current_azks
-            .get_root_hash_safe::<TC, _>(&self.storage, next_epoch)
-            .await?;
 
         Ok(EpochHash(next_epoch, root_hash))
     }
